@@ -38,6 +38,7 @@ impl DiagnosticRenderer {
             let path = PathDisplay::from(site.path().to_path_buf());
             let span = (path, site.warning.range().clone());
             let report = Report::build(ReportKind::Warning, span.clone())
+                .with_config(zydeco_surface::textual::report_config())
                 .with_message(site.warning.message())
                 .with_label(Label::new(span).with_message("this text block contributes no text"))
                 .with_note(site.warning.note())
